@@ -493,10 +493,35 @@ fn family_large(t: &mut Tape, gates: &Gates) -> String {
     out
 }
 
+/// declaration graphs with cycles (one, several, nested, self-loops) realised as function blocks,
+/// types or a mixture: the error paths of the recursion check must terminate too
+fn family_graph(t: &mut Tape) -> String {
+    let n = 1 + t.below(7);
+    let dense = t.below(3);
+    let mut adj = vec![vec![false; n]; n];
+    for i in 0..n {
+        for j in 0..n {
+            adj[i][j] = match dense {
+                0 => t.ratio(1, 6),
+                1 => t.ratio(1, 3),
+                _ => t.ratio(2, 3),
+            };
+        }
+    }
+    let g = crate::props::c07::Graph { n, adj };
+    let salt = t.u64();
+    match t.below(3) {
+        0 => crate::props::c07::realise_fb(&g, salt, true).0,
+        1 => crate::props::c07::realise_type(&g, salt, true).0,
+        _ => crate::props::c07::realise_mixed(&g, salt, true).map(|x| x.0).unwrap_or_else(|| crate::props::c07::realise_fb(&g, salt, false).0),
+    }
+}
+
 pub fn gen_input(t: &mut Tape, gates: &Gates) -> (String, &'static str) {
     let (s, fam) = match t.below(11) {
         10 if t.ratio(1, 3) => (long_chain(t, gates), "long-operator-chain"),
         10 if t.ratio(1, 8) => (family_large(t, gates), "large-input"),
+        10 if t.ratio(1, 3) => (family_graph(t), "declaration-graph"),
         10 => (family_text_decl(t), "text-declarations"),
         0 => (family_bytes(t), "bytes"),
         1 | 2 => (family_soup(t), "token-soup"),
